@@ -453,6 +453,21 @@ func c08Run(w *core.W) {
 			}
 		}
 	}
+	// (4e) recursion through an optional property or an array: where Example() cuts the
+	// recursion off, what it leaves must still be an instance
+	for _, rp := range []*project{
+		{Root: "@b", Types: map[string]string{"@a": "{\n\t\"x\": @b\n}", "@b": "{\n\t\"y\": @a // {optional: true}\n}"}},
+		{Root: "{\n\t\"r\": @b\n}", Types: map[string]string{"@a": "{\n\t\"x\": @b\n}", "@b": "{\n\t\"y\": @a // {optional: true}\n}"}},
+		{Root: "@a", Types: map[string]string{"@a": "{\n\t\"kids\": [ // {minItems: 1}\n\t\t@a\n\t]\n}"}},
+		{Root: "@a", Types: map[string]string{"@a": "{\n\t\"kids\": [\n\t\t@a\n\t]\n}"}},
+		{Root: "@a", Types: map[string]string{"@a": "{\n\t\"next\": @a, // {optional: true}\n\t\"v\": 1\n}"}},
+		{Root: "@a", Types: map[string]string{"@a": "{\n\t\"next\": @a, // {nullable: true}\n\t\"v\": 1\n}"}},
+		{Root: "@a", Types: map[string]string{"@a": "{\n\t\"next\": @b, // {optional: true}\n\t\"v\": 1\n}", "@b": "{\n\t\"back\": @a,\n\t\"w\": 2\n}"}},
+	} {
+		if mine() {
+			c08Case(w, rp, "recursive-cutoff")
+		}
+	}
 	// (4d) long strings (around and beyond 256 bytes, one- and two-byte characters) pinned by
 	// const or listed in an enum: the value must reach the Schema Object whole
 	for _, n := range []int{64, 255, 256, 257, 300, 1000, 5000} {
